@@ -356,6 +356,7 @@ type rEnv struct {
 	bound   map[string]Term
 	err     error
 	depth   int
+	iterKey  string // loop whose current iteration the iter() trace queries refer to
 	assuming bool // the formula is being assumed: universally quantified facts become instantiable facts
 	pol     int // polarity of the expression being evaluated: 1 positive, -1 negative, 0 unknown
 }
@@ -830,6 +831,14 @@ func (env *rEnv) field(n *rNode) Value {
 		case SEvent:
 			if ef, ok := eventFields[f]; ok {
 				return sym(Acc(ef.sort, ef.acc, b.T))
+			}
+		case SFeedEv:
+			fe := map[string]*Sort{"opcode": SInt, "key": SBytes, "value": SBytes, "cas": SInt, "expiry": SInt, "datatype": SInt, "revno": SInt, "collid": SInt}
+			if srt, ok := fe[f]; ok {
+				return sym(App(srt, "fe."+f, b.T))
+			}
+			if f == "isnil" {
+				return sym(Eq(b.T, mkT("FE_NIL", SFeedEv)))
 			}
 		case SDocId:
 			if f == "coll" {
